@@ -25,30 +25,30 @@ def run(rep, tier):
     rep.distinct += nev
     # 2. statistics: >= 2^14 error coefficients per layout, computed by TLC from raw limbs and the clear secret
     def one(d):
-        label = "stat_%s_b%d_r%d_be%d" % (d["layout"], d["b"], d["rank"], d.get("be", 9))
+        label = "stat_%s%s_b%d_r%d_be%d" % (d["layout"], ("_" + d["part"] + str(d["variant"])) if "part" in d else "", d["b"], d["rank"], d.get("be", 9))
         return d, randpipe.run_group(rep, wd, label, [d])
     with ThreadPoolExecutor(max_workers=10) as ex:
         res = list(ex.map(one, stats))
     table = []
     for d, (ep, nev, bad, sums) in res:
-        table.append({"layout": d["layout"], "backend": d.get("be"), "b": d["b"], "rank": d["rank"], "objects": nev, "error_coefficients": sums["n"], "sum": sums["s1"], "sum_sq": sums["s2"],
+        table.append({"layout": d["layout"] + ((":" + d["part"] + "/v" + str(d["variant"])) if "part" in d else ""), "backend": d.get("be"), "b": d["b"], "rank": d["rank"], "objects": nev, "error_coefficients": sums["n"], "sum": sums["s1"], "sum_sq": sums["s2"],
                       "max_abs": sums["mx"], "mask_digits": sums["nm"], "variance_x1000": (sums["s2"] * 1000) // max(1, sums["n"])})
         rep.evaluations += sums["n"]
         rep.distinct += nev
         if sums["n"] < 16384:
             raise ToolError("C06: only %d error coefficients for %s" % (sums["n"], d["layout"]))
         for k, kind in bad:
-            key = "stat:%s:%s b=%s rank=%s be=%s" % (kind, d["layout"], d["b"], d["rank"], d.get("be"))
+            key = "stat:%s:%s%s b=%s rank=%s be=%s" % (kind, d["layout"], (":" + d["part"]) if "part" in d else "", d["b"], d["rank"], d.get("be"))
             rep.violation(key, "statistic '%s' of fresh %s encryptions outside its acceptance band: %s" % (kind, d["layout"], json.dumps(table[-1])), {"descriptor": d, "sums": sums})
     rep.extra["statistics"] = table
     rep.extra["dependency_experiments"] = len(deps)
-    rep.rule = ("%d dependency experiments (layouts glwe, glwe compressed, lwe, switching / automorphism / tensor keys, ggsw, ggsw / gglwe compressed; 6 runs x 4 back-ends each: base, other plaintext, "
+    rep.rule = ("%d dependency experiments (layouts glwe, glwe compressed, lwe, switching / automorphism / tensor / GGLWE-to-GGSW keys, ggsw, ggsw / gglwe compressed; 6 runs x 4 back-ends each: base, other plaintext, "
                 "other secret, other mask seed, other error seed, base again) decided by Rand.tla DepOK on digests of the mask part and the body part; %d statistical experiments of >= 2^14 error "
-                "coefficients each: TLC computes every error = phase - expected plaintext from raw limbs and the clear secret and accumulates count / sum / sum of squares / max and the histogram of "
+                "coefficients each (the same layouts, public-key encryption, and the blind-rotation / automorphism / tensor-switching sub-keys of a circuit-bootstrapping key bundle generated with three different precisions): TLC computes every error = phase - expected plaintext from raw limbs and the clear secret and accumulates count / sum / sum of squares / max and the histogram of "
                 "all mask digits; acceptance bands (8 standard deviations of the estimator, false alarm < 2^-40) are evaluated by TLC in integer arithmetic; distinct = experiments"
                 % (len(deps), len(stats)))
     rep.sample(table[0] if table else {})
     log("[C06] %d dependency experiments, %d statistical experiments" % (len(deps), len(stats)))
     rep.assumptions += ["sigma = 3.2, bound = 6 sigma, noise on the last limb (k a multiple of the radix) for the statistics; other positions through C01's bound",
-                        "public-key encryption, blind-rotation and circuit-bootstrapping keys are not covered (their cells are produced by the routines covered here)",
+                        "blind-rotation and circuit-bootstrapping keys: statistics of the three sub-keys of the bundle routine (read back through the public serialisation), no dependency experiment; BDD keys not covered (a circuit-bootstrapping key plus a switching key)",
                         "N = 8 (many objects) rather than few large objects; seeds derived deterministically from the experiment index"]
